@@ -93,9 +93,15 @@ def main():
         elif kind == 'shell':
             flavour, prompt = st[1], st[2]
             note(i, kind, 'shell', prompt)
+            die_after = st[3] if len(st) > 3 else None      # the connection is lost after that many lines
+            nlines = 0
             while True:
                 out(prompt)
+                if die_after is not None and nlines >= die_after:
+                    note(i, kind, 'died')
+                    os._exit(0)
                 line = readline()
+                nlines += 1
                 if line is None:
                     os._exit(0)
                 note(i, kind, 'line', line)
